@@ -108,8 +108,10 @@ OnCm(ns, cfg, prio, sa, da, d, clk) ==
                    ELSE IF b.next >= b.total THEN R(ns, <<>>)     \* everything sent (waiting for EOM_ACK): nothing to clear
                    ELSE LET n1 == Min2(n, b.total)
                             n2 == IF nextpk + n1 > b.total THEN b.total - nextpk ELSE n1
-                            b2 == [b EXCEPT !.waitOn = b.next + n2 - 1, !.st = SENDING_IN_CTS, !.dl = clk, !.act = clk]
-                        IN R(Wake([ns EXCEPT !.snd = Put(@, b2)]), <<>>)
+                            n3 == Min2(n2, b.total - b.next)        \* never more than still has to be sent
+                            b2 == [b EXCEPT !.waitOn = b.next + n3 - 1, !.st = SENDING_IN_CTS, !.dl = clk, !.act = clk]
+                        IN IF n3 <= 0 THEN R(ns, <<>>)               \* nothing sensible cleared: keep waiting
+                           ELSE R(Wake([ns EXCEPT !.snd = Put(@, b2)]), <<>>)
       [] cb = CB_EOMA ->
            LET key == Hash(da, sa)
            IN IF ~Has(ns.snd, key) THEN R(ns, << TxAbort(da, sa, R_RESOURCES, pgn) >>)
